@@ -76,6 +76,22 @@ def DEFINITION(*instances):
         speclib.CTX.add_axiom(f)
 
 
+def PRELUDE_INSTANCE(name, *terms):
+    """A ground instance of a universally quantified prelude axiom (sound: the axiom itself is assumed in every query).
+    `terms` are given in the order of the axiom's bound variables; None skips a conjunct selector (see pmod-const)."""
+    eng = speclib.CTX.engine
+    for (n, why, ax) in eng.prelude_named:
+        if n == name:
+            break
+    else:
+        raise KeyError(name)
+    qs = [ax] if z3.is_quantifier(ax) else [c for c in ax.children() if z3.is_quantifier(c)]
+    args = [t for t in terms if t is not None]
+    for q in qs:
+        if q.num_vars() == len(args) and all(q.var_sort(k) == args[k].sort() for k in range(len(args))):
+            speclib.CTX.add_axiom(z3.substitute_vars(q.body(), *reversed(args)))
+
+
 def OFF(types, base0, i):
     """O_i: the set of bit positions at which field i can start"""
     if smt():
@@ -153,10 +169,20 @@ def _inv_union(s):
     fs = s.seq
     j = z3.FreshConst(z3.IntSort(), "j")
     item = y.item(j, ObjOf(FIELD), ObjOf(BLS))
+    # ground instances of prelude lemmas (already assumed universally; stated for the terms at hand so that the byte
+    # alignment of base + tag does not depend on the solver's instantiation heuristics)
+    t = st._i(s.self._tag_field_type._bit_length)
+    pb = st.padset_f(st._t(D(s.base_offset)), z3.IntVal(8))
+    PRELUDE_INSTANCE("pmod-const", None, t)
+    PRELUDE_INSTANCE("aligned-singleton", t, z3.IntVal(8))
+    PRELUDE_INSTANCE("aligned-padset", st._t(D(s.base_offset)), z3.IntVal(8))
+    PRELUDE_INSTANCE("aligned-sumset", pb, st.singleton_f(t), z3.IntVal(8))
     return {
         "count": y.count == s.i,
         "prefix-yielded": z3.ForAll([j], z3.Implies(z3.And(0 <= j, j < s.i), z3.And(
             item[0].ref == z3.Select(fs.arr, j), item[1].ref == s.offset.ref))),
+        # base padded to a byte plus a tag of 8 / 16 / 32 / 64 bits: byte aligned (what the in-code assertion needs)
+        "offset-byte-aligned": ALIGNED(D(s.offset), 8),
     }
 
 
